@@ -41,6 +41,8 @@ type Contract struct {
 	Requires  []*Clause
 	Ensures   []*Clause
 	Exsures   []*Clause
+	Preserves []*Clause
+	Implements string // key suffix of a function-type contract, e.g. "type:instFunc"
 	Modifies  []*Clause
 	ModAll    bool
 	NoPanic   bool
@@ -54,7 +56,7 @@ type Contract struct {
 	Lemma     bool
 }
 
-var kwRe = regexp.MustCompile(`^(define|func|requires|ensures|exsures|modifies|nopanic|assumed|inline|loop|decreases|params|lemma)\b`)
+var kwRe = regexp.MustCompile(`^(define|implements|preserves|func|requires|ensures|exsures|modifies|nopanic|assumed|inline|loop|decreases|params|lemma)\b`)
 
 // parseContracts reads all zz_verif_contracts.go files below repo.
 func parseContracts(repo string) (map[string]*Contract, []string, error) {
@@ -140,7 +142,7 @@ func parseContractFile(path, relpkg string, out map[string]*Contract) error {
 			}
 			macros[relpkg+"."+m.Name] = m
 			return nil
-		case "requires", "ensures", "exsures", "modifies", "decreases":
+		case "requires", "ensures", "exsures", "modifies", "decreases", "preserves":
 			if p.kind == "modifies" && text == "*" {
 				cur.ModAll = true
 				return nil
@@ -154,11 +156,37 @@ func parseContractFile(path, relpkg string, out map[string]*Contract) error {
 				c.Idx = len(cur.Requires)
 				cur.Requires = append(cur.Requires, c)
 			case "ensures":
+				if os.Getenv("GVC_SPLIT") != "" {
+					// debugging aid: one obligation per top-level conjunct
+					var parts []ast.Expr
+					var split func(e ast.Expr)
+					split = func(e ast.Expr) {
+						if pe, ok := e.(*ast.ParenExpr); ok {
+							split(pe.X)
+							return
+						}
+						if be, ok := e.(*ast.BinaryExpr); ok && be.Op.String() == "&&" {
+							split(be.X)
+							split(be.Y)
+							return
+						}
+						parts = append(parts, e)
+					}
+					split(c.Expr)
+					for _, pe := range parts {
+						cc := &Clause{Text: exprString(pe), Expr: pe, Line: c.Line, Idx: len(cur.Ensures)}
+						cur.Ensures = append(cur.Ensures, cc)
+					}
+					return nil
+				}
 				c.Idx = len(cur.Ensures)
 				cur.Ensures = append(cur.Ensures, c)
 			case "exsures":
 				c.Idx = len(cur.Exsures)
 				cur.Exsures = append(cur.Exsures, c)
+			case "preserves":
+				c.Idx = len(cur.Preserves)
+				cur.Preserves = append(cur.Preserves, c)
 			case "modifies":
 				c.Idx = len(cur.Modifies)
 				cur.Modifies = append(cur.Modifies, c)
@@ -220,6 +248,8 @@ func parseContractFile(path, relpkg string, out map[string]*Contract) error {
 			}
 			cur = &Contract{Key: key, File: path, Loops: map[int]*LoopSpec{}}
 			out[key] = cur
+		case "implements":
+			cur.Implements = rest
 		case "nopanic":
 			cur.NoPanic = true
 		case "assumed":
